@@ -252,16 +252,50 @@ func shapeProblem(body *ast.BlockStmt) string {
 	return ""
 }
 
+// unconditionalPrefix returns the top-level statements of body that run on EVERY path: those before
+// the first statement that can leave the function early (a return that is not the last statement, a
+// goto, an explicit panic - closures excluded). That statement and everything after it is conditional
+// and is not looked at. (A reset routine that starts with `if x { return }` therefore has an empty
+// prefix and covers nothing; one that ends with `if n <= 0 { return }; copy(...)` keeps everything
+// it assigned before - harmless seed C20-H2.)
+func unconditionalPrefix(body *ast.BlockStmt) []ast.Stmt {
+	last := len(body.List) - 1
+	for i, s := range body.List {
+		if _, ok := s.(*ast.ReturnStmt); ok && i == last {
+			return body.List[:i]
+		}
+		leaves := false
+		ast.Inspect(s, func(n ast.Node) bool {
+			switch x := n.(type) {
+			case *ast.FuncLit:
+				return false
+			case *ast.ReturnStmt:
+				leaves = true
+			case *ast.BranchStmt:
+				if x.Tok == token.GOTO {
+					leaves = true
+				}
+			case *ast.CallExpr:
+				if id, ok := x.Fun.(*ast.Ident); ok && id.Name == "panic" {
+					leaves = true
+				}
+			}
+			return true
+		})
+		if leaves {
+			return body.List[:i]
+		}
+	}
+	return body.List
+}
+
 // resetSet: the fields of the receiver (re)initialised on every path of fd.
 func resetSet(p *Pkg, fd *ast.FuncDecl, depth int) ([]string, string) {
 	rv := recvVarName(fd)
 	if rv == "" {
 		return nil, "receiver is unnamed"
 	}
-	if why := shapeProblem(fd.Body); why != "" {
-		return nil, why
-	}
-	return assignedIn(p, fd.Body.List, rv, recvTypeName(fd), depth), ""
+	return assignedIn(p, unconditionalPrefix(fd.Body), rv, recvTypeName(fd), depth), ""
 }
 
 var atomicStores = map[string]bool{
@@ -312,8 +346,8 @@ func assignedIn(p *Pkg, stmts []ast.Stmt, rv, recvType string, depth int) []stri
 				}
 				// r.helper(...): one level of same-type helper methods
 				if id, ok := se.X.(*ast.Ident); ok && id.Name == rv && depth > 0 {
-					if h := p.Func(recvType, se.Sel.Name); h != nil && recvVarName(h) != "" && shapeProblem(h.Body) == "" {
-						for _, f := range assignedIn(p, h.Body.List, recvVarName(h), recvType, depth-1) {
+					if h := p.Func(recvType, se.Sel.Name); h != nil && recvVarName(h) != "" {
+						for _, f := range assignedIn(p, unconditionalPrefix(h.Body), recvVarName(h), recvType, depth-1) {
 							set[f] = true
 						}
 					}
